@@ -54,3 +54,7 @@ func VerifC06_ListedAreCreated() {
 	_ = datatransfer.ChannelID{}
 	_ = channels.VerifNumEvents
 }
+
+// VerifC06_CleanupOnRestart: a channel persisted while cleaning up finishes cleanup when it is
+// restarted (same body as VerifC10_CleanupOnly; the clause belongs to both properties).
+func VerifC06_CleanupOnRestart() { VerifC10_CleanupOnly() }
